@@ -152,6 +152,51 @@ func ruleJsonKinds(c *core.Ctx) {
 		got[sh.key] = kinds
 		tbl[sh.key] = strings.Join(kinds, "|")
 	}
+	// second engine: the function evaluated over the finite domain of type shapes (helper functions, literal lookup
+	// tables and (value, ok) results followed); where it decides every shape its table is taken
+	{
+		tshapes := map[string][]tshape{
+			"cont:null":          {{null: true}},
+			"cont:vector":        {{dim: "Vector"}},
+			"cont:array,fixed":   {{dim: "Array", fixed: true}},
+			"cont:array,!fixed":  {{dim: "Array", fixed: false}},
+			"cont:map,stringkey": {{dim: "Map", keyPrim: "string"}},
+			"cont:map,otherkey":  {{dim: "Map", keyPrim: "int32"}, {dim: "Map", keyPrim: ""}},
+			"def:flags":          {{def: "EnumDefinition", flags: true}},
+			"def:enum":           {{def: "EnumDefinition", flags: false}},
+			"def:record":         {{def: "RecordDefinition"}},
+		}
+		for _, prim := range primitives18 {
+			tshapes["prim:"+prim] = []tshape{{def: "PrimitiveDefinition", prim: prim}}
+		}
+		got2 := map[string][]string{}
+		allDecided := true
+		whyNot := ""
+		for key, shs := range tshapes {
+			var mask int64
+			for _, sh := range shs {
+				m, decided, why := kindDecisions(c, p.TypesInfo, d, sh)
+				if !decided {
+					allDecided = false
+					whyNot = key + ": " + why
+				}
+				mask |= m
+			}
+			if mask != 0 {
+				got2[key] = decodeKinds(int(mask))
+			}
+		}
+		if allDecided {
+			c.Tables["J1_engine"] = "finite-domain evaluation"
+			got = got2
+			tbl = map[string]string{}
+			for k, v := range got2 {
+				tbl[k] = strings.Join(v, "|")
+			}
+		} else {
+			c.Tables["J1_engine"] = "row extraction (finite-domain evaluation undecided: " + whyNot + ")"
+		}
+	}
 	c.Tables["json_kind_table"] = tbl
 	check := func(prefix string, want map[string][]string) {
 		var names []string
